@@ -125,6 +125,12 @@ func TestVerifC16(t *testing.T) {
 	}
 	rw := bufio.NewWriterSize(rf, 1<<20)
 	defer func() { rw.Flush(); rf.Close() }()
+	xf, err := os.Create(os.Getenv("VERIF_OUT") + ".aux")
+	if err != nil {
+		t.Fatal(err)
+	}
+	xw := bufio.NewWriterSize(xf, 1<<20)
+	defer func() { xw.Flush(); xf.Close() }()
 	f, err := os.Open(os.Getenv("VERIF_OPS"))
 	if err != nil {
 		t.Fatal(err)
@@ -161,8 +167,21 @@ func TestVerifC16(t *testing.T) {
 		}
 		b := vh.UnHex(toks[1])
 		o := goomDecode(b)
+		r := refDecode(b)
 		fmt.Fprintf(iw, "%d\t%s\n", i, o)
-		fmt.Fprintf(rw, "%d\t%s\n", i, refDecode(b))
+		fmt.Fprintf(rw, "%d\t%s\n", i, r)
+		// side channel for the classification of goom-vs-reference differences: the independent length rule, and the rendered text
+		// (Inst.String() shows Prefix flags and Args, i.e. what decode.go:1243-1517 computes) where the tuples agree
+		if o != r {
+			if n, fam, ok := ilen(b); ok {
+				fmt.Fprintf(xw, "%d\trule %d %s\n", i, n, fam)
+			}
+		} else if o.err == "ok" {
+			gs, _ := goomString(b)
+			if rs := refString(b); gs != rs {
+				fmt.Fprintf(xw, "%d\tstr %q vs %q\n", i, gs, rs)
+			}
+		}
 	}
 }
 
